@@ -707,10 +707,11 @@ func c17Run(c *c17Case) (outcome string, list []c17Entry, detail string) {
 	}
 	fs, err := (&arvados.Collection{ManifestText: r.txt}).FileSystem(nil, kc)
 	if err != nil {
-		return "infra", nil, "saved manifest does not load: " + err.Error()
+		// Copy reported success but what it produced is not a loadable collection: judged like a crash
+		return "panic", nil, "saved manifest does not load: " + err.Error()
 	}
 	if err := c17Walk(fs, ".", &list); err != nil {
-		return "infra", nil, "walk of the saved collection: " + err.Error()
+		return "panic", nil, "walk of the saved collection: " + err.Error()
 	}
 	sort.Slice(list, func(i, j int) bool { return list[i].Path < list[j].Path })
 	return "ok", list, r.txt
